@@ -84,7 +84,7 @@ func checkC05(c *Ctx) {
 				f2, _, ok := m.atomicStore(c2)
 				return ok && f2 == m.Token
 			}), shortFn(f))
-			inUnit := containsFn(m.ClaimSet, f)
+			inUnit := m.inClaimUnit(f)
 			c.check(okFresh && inUnit, "R2", key, in, "origins %s; stored by the claim-set unit: %v (a token stored elsewhere or from elsewhere can differ from the one in the record)", o, inUnit)
 		})
 	}
